@@ -80,7 +80,7 @@ def abs_args(e):
     return tuple(out)
 
 
-def seeds_constructed(ctx, effs, fm):
+def seeds_constructed(ctx, effs, fm, drop_fresh_children=False):
     seeds = {}
     for e in effs:
         if e.cls != "append":
@@ -88,8 +88,21 @@ def seeds_constructed(ctx, effs, fm):
         for t in e.targets or ():
             fr = field_of_target(ctx, t, fm)
             if fr is not None:
+                if drop_fresh_children and appended_is_fresh_child(e, effs):
+                    continue
                 seeds.setdefault(fr[0], []).append((e.tag[1], abs_args(e)))
     return seeds
+
+
+def appended_is_fresh_child(e, effs):
+    """the appended value is a freshly constructed child region (column creation), not content"""
+    vals = []
+    for os_ in (e.argorigins or [])[1:]:
+        for o in os_:
+            for (c2, o2) in base_places(e.ctx, o):
+                vals.append(fresh_value(c2, o2, effs))
+    return bool(vals) and all(v[0] and ("merge_regions" in v[1] or "Default::default" in v[1] or
+                                        "with_capacity" in v[1]) for v in vals)
 
 
 # ---------------------------------------------------------------------------------------------
@@ -263,8 +276,8 @@ def r_seed(F, R, cat=None, only=None):
             if not cons:
                 continue
             root, fm = cons[0]
-            mseeds = seeds_constructed(ctx, effs, fm)
             # appends of freshly merged child regions (column creation) are not seeds
+            mseeds = seeds_constructed(ctx, effs, fm, drop_fresh_children=True)
             mseeds = {f: [s for s in v if not _is_child_ctor_arg(s)] for f, v in mseeds.items()}
             fields = set(dseeds) | {f for f, v in mseeds.items() if v}
             for f in sorted(fields):
@@ -366,7 +379,8 @@ def r_fresh(F, R, cat=None, only=None):
                         vals = []
                         for os_ in (e.argorigins or [])[1:]:
                             for o in os_:
-                                vals.append(fresh_value(e.ctx, o, effs))
+                                for (c2, o2) in base_places(e.ctx, o):
+                                    vals.append(fresh_value(c2, o2, effs))
                         ok = e.cls == "append" and all(v[0] for v in vals)
                         R.check("R-FRESH", b.label(), ok,
                                 construct="%s into field %s" % (e.tag[1], fr[0]), where=e.where(),
@@ -654,6 +668,16 @@ def check_direct_callback(R, b, ctx, effs, self_path):
             d0 = measures_in(ctx, ctx.org.operand(rv["ops"][0]))
             d1 = measures_in(ctx, ctx.org.operand(rv["ops"][1]))
             want = (("arg", 1), self_path)
+            if not any(n in ("len", "capacity") for (n, tg) in d0 | d1):
+                R.undecided_site("R-COVER(heap_size)", b.label(),
+                                 "callback arguments are not recognisably derived from len()/capacity()")
+                continue
+            n0 = {n for (n, tg) in d0 if n in ("len", "capacity")}
+            n1 = {n for (n, tg) in d1 if n in ("len", "capacity")}
+            if n0 == {"len", "capacity"} or n1 == {"len", "capacity"}:
+                R.undecided_site("R-COVER(heap_size)", b.label(),
+                                 "callback arguments mix len() and capacity() in one expression (not attributable)")
+                continue
             ok0 = any(n in ("len",) and tg == want for (n, tg) in d0) and \
                 not any(n == "capacity" for (n, tg) in d0)
             ok1 = any(n == "capacity" and tg == want for (n, tg) in d1)
@@ -662,9 +686,7 @@ def check_direct_callback(R, b, ctx, effs, self_path):
                     where="%s:%s" % (b.file, t["line"]),
                     detail="first argument derives from %s, second from %s" % (sorted(d0), sorted(d1)))
     if not found:
-        R.check("R-COVER(heap_size)", b.label(), False,
-                construct="callback(used, capacity) over %s" % (".".join(self_path) or "self"),
-                where=b.where(), detail="no direct callback invocation found")
+        R.undecided_site("R-COVER(heap_size)", b.label(), "no direct callback invocation recognised")
 
 
 def measures_in(ctx, origins, depth=0, seen=None):
